@@ -96,6 +96,40 @@ fn emit(id: &str, kind: &str, rel: &str, stem: &str, name: &str, outcome: Outcom
     }
 }
 
+/// negative controls of the text oracle itself: a Go file with `@` in one identifier position each — selector,
+/// function name, parameter, local, field declaration, key of a composite literal, type name, type-switch
+/// binding — must parse with an ordinary identifier there and must NOT parse with any of Go's keywords
+/// (`x.range` and `func default()` are syntax errors in Go).  Returns the cells where `goparse.rs` answers otherwise.
+fn goparse_keyword_selftest() -> Vec<String> {
+    const POSITIONS: &[(&str, &str)] = &[
+        ("selector", "package main\n\nfunc f(x T) int32 {\n    return x.@\n}\n"),
+        ("selector-call", "package main\n\nfunc f(x T) int32 {\n    var t1 int32 = x.vtable.@(x.data, 0)\n    return t1\n}\n"),
+        ("func-name", "package main\n\nfunc @() int32 {\n    return 1\n}\n"),
+        ("parameter", "package main\n\nfunc f(@ int32) int32 {\n    return 1\n}\n"),
+        ("local", "package main\n\nfunc f() int32 {\n    var @ int32 = 1\n    return 1\n}\n"),
+        ("operand", "package main\n\nfunc f() int32 {\n    return @\n}\n"),
+        ("field-decl", "package main\n\ntype T struct {\n    @ int32\n}\n"),
+        ("literal-key", "package main\n\nfunc f() T {\n    return T{@: 1}\n}\n"),
+        ("type-name", "package main\n\ntype @ struct {\n    a int32\n}\n"),
+        ("type-use", "package main\n\nfunc f(x @) int32 {\n    return 1\n}\n"),
+        ("type-switch-binding", "package main\n\nfunc f(x any) int32 {\n    switch @ := x.(type) {\n    case T:\n        return @.a\n    }\n    return 1\n}\n"),
+    ];
+    let mut bad = Vec::new();
+    for (pos, text) in POSITIONS {
+        if let Err(e) = crate::goparse::parse_go(&text.replace('@', "zqa")) {
+            bad.push(format!("{}: the control `zqa` does not parse: {}", pos, e));
+        }
+        for kw in crate::goparse::GO_KEYWORDS {
+            // in type position `struct` and `func` start a type literal, and `func`, `struct` … start other
+            // well-formed or differently ill-formed phrases: only "must not parse AS AN IDENTIFIER" is asked
+            if crate::goparse::parse_go(&text.replace('@', kw)).is_ok() {
+                bad.push(format!("{}: accepted with the keyword `{}`", pos, kw));
+            }
+        }
+    }
+    bad
+}
+
 pub fn main(args: &util::Args) {
     util::quiet_panics();
     let _ = std::fs::create_dir_all(&args.out);
@@ -173,6 +207,8 @@ pub fn main(args: &util::Args) {
         }
     }
     let _ = std::fs::remove_dir_all(&base);
+    let selftest = goparse_keyword_selftest();
+    let _ = writeln!(out, "#GOPARSE-KEYWORDS\t{}\t{}", if selftest.is_empty() { "ok" } else { "fail" }, crate::sexp::esc_line(&selftest.join(" | ")));
     let _ = writeln!(out, "#FEATS\tname-test catalogue: ({} stems x {} relations + {} Go words) x {} kinds = {} programs", stems.len(), related_names("w").len(), words.iter().filter(|w| !stems.contains(w)).count(), kinds.len() + PKG_KINDS.len() + 1, n);
     std::fs::write(args.out.join("c02names.cases.tsv"), out).unwrap();
     println!("c02names: {} programs, stems {:?}, {} words", n, stems, words.len());
